@@ -13,8 +13,8 @@ Definition L_PIPE : Z := 1.
 Definition L_OR : Z := 2.
 Definition L_AND : Z := 3.
 Definition L_CMP : Z := 5.
-Definition L_ADD : Z := 6.   (* also unary sign: its operand is parsed with the additive power *)
-Definition L_MUL : Z := 7.
+Definition L_ADD : Z := 6.
+Definition L_MUL : Z := 7.   (* also unary sign: its operand is parsed with the multiplicative power *)
 Definition L_PROJ : Z := 8.  (* a projection: a following selector would extend its right-hand side *)
 Definition L_POST : Z := 9.  (* primaries and selector chains *)
 
@@ -24,7 +24,7 @@ Definition level (e : rexpr) : Z :=
   | RPipe _ _ => L_PIPE | ROr _ _ => L_OR | RAnd _ _ => L_AND
   | RCmp _ _ _ => L_CMP
   | RArith op _ _ => match op with AAdd | ASub => L_ADD | _ => L_MUL end
-  | RNeg _ | RPos _ => L_ADD
+  | RNeg _ | RPos _ => L_MUL
   | RProj _ _ _ => L_PROJ
   | _ => L_POST
   end.
@@ -138,8 +138,8 @@ Fixpoint show (p : Z) (e : rexpr) {struct e} : bytes :=
     | RArith op l r =>
       let lv := match op with AAdd | ASub => L_ADD | _ => L_MUL end in
       show lv l ++ sp (ar_text op) ++ show (lv + 1) r
-    | RNeg x => 45 :: 32 :: show L_MUL x
-    | RPos x => 43 :: 32 :: show L_MUL x
+    | RNeg x => 45 :: 32 :: show L_PROJ x
+    | RPos x => 43 :: 32 :: show L_PROJ x
     | RCall f args =>
       let parts := (fix go (l : list rarg) : list bytes :=
                       match l with
